@@ -5,7 +5,8 @@ subsetting, extraction windows.
 
 Mirrors `tme/orientations.py` (after the `fix:` commits of this property):
 `Orientations._to_text/_from_text`, `_to_relion_star/_parse_star/_from_relion_star`,
-`_to_dynamo_tbl/_from_tbl`, `__getitem__`, `get_extraction_slices`.
+`_to_dynamo_tbl/_from_tbl`, `__getitem__`, `get_extraction_slices`, and the format selection of
+`to_file` / `from_file` (by name or inferred from the file name).
 
 Text is modelled as `List Char` (what `infile.read()` returns), numbers travel as the *tokens*
 `str(np.float32)` / `str(np.float64)` produced by numpy: printing a float and parsing the token
@@ -503,5 +504,58 @@ def extraction (T e : List Nat) (peaks : List (List Int)) (drop : Bool) :
     List (Nat × List (Int × Int × Int × Int)) :=
   ((List.range peaks.length).zip peaks).filterMap (fun (i, p) =>
     if !drop || keepPick T e p then some (i, windowAxes T e p) else none)
+
+/-! ## format dispatch (`to_file` / `from_file`) -/
+
+/-- the three formats behind `to_file` / `from_file` -/
+inductive Fmt | text | relion | dynamo
+deriving DecidableEq, Repr
+
+def Fmt.name : Fmt → String
+  | .text => "text" | .relion => "relion" | .dynamo => "dynamo"
+
+/-- `str.lower()` for one ASCII character (file names are ASCII in the harness) -/
+def lowerChar (c : Char) : Char :=
+  if 65 ≤ c.toNat ∧ c.toNat ≤ 90 then Char.ofNat (c.toNat + 32) else c
+/-- `s.lower()` -/
+def lower (s : Str) : Str := s.map lowerChar
+
+/-- `s.endswith(suf)` -/
+def endsWith (s suf : Str) : Bool := suf.reverse.isPrefixOf s.reverse
+
+def extStar : Str := ['.','s','t','a','r']
+def extTbl : Str := ['.','t','b','l']
+def nmText : Str := ['t','e','x','t']
+def nmRelion : Str := ['r','e','l','i','o','n']
+def nmDynamo : Str := ['d','y','n','a','m','o']
+def nmTbl : Str := ['t','b','l']
+
+/-- the format both `to_file` and `from_file` infer from the file name when none is given -/
+def inferFmt (fname : Str) : Fmt :=
+  if endsWith (lower fname) extStar then .relion
+  else if endsWith (lower fname) extTbl then .dynamo
+  else .text
+
+/-- `to_file`: which writer runs (`mapping.get(file_format)`, `ValueError` for unknown names) -/
+def writeFmt (fname : Str) : Option Str → Except Err Fmt
+  | Option.none => pure (inferFmt fname)
+  | some nm =>
+    if nm == nmText then pure .text else if nm == nmRelion then pure .relion
+    else if nm == nmDynamo then pure .dynamo else throw .valueError
+
+/-- `from_file`: which reader runs (after `fix: from_file accepts the documented format name
+"dynamo"`; the historical key `"tbl"` is still accepted) -/
+def readFmt (fname : Str) : Option Str → Except Err Fmt
+  | Option.none => pure (inferFmt fname)
+  | some nm =>
+    if nm == nmText then pure .text else if nm == nmRelion then pure .relion
+    else if nm == nmDynamo || nm == nmTbl then pure .dynamo else throw .valueError
+
+/-- `from_file` before that fix: the documented name `"dynamo"` was not a key of its mapping -/
+def readFmtOld (fname : Str) : Option Str → Except Err Fmt
+  | Option.none => pure (inferFmt fname)
+  | some nm =>
+    if nm == nmText then pure .text else if nm == nmRelion then pure .relion
+    else if nm == nmTbl then pure .dynamo else throw .valueError
 
 end Pm.C11
